@@ -13,18 +13,23 @@ AUTO = ("C01", "C02", "C03", "C10", "C11", "C12", "C14", "C15", "C19", "C07", "C
 
 
 def rcs(f):
+    """root-cause labels of a ledger: counts from the quick-tier ledger; labels that only the larger corpus of
+    the thorough tier produces (known/Cxx.thorough.ledger) are added with their thorough counts."""
     c = collections.Counter()
     ex = {}
-    p = os.path.join(V, f)
-    if not os.path.exists(p):
-        return c, ex
-    for l in open(p, errors="replace").read().split("\n"):
-        if not l.strip() or l.startswith("#"):
+    for path, only_new in ((os.path.join(V, f), False), (os.path.join(V, f[:-len(".ledger")] + ".thorough.ledger"), True)):
+        if not os.path.exists(path):
             continue
-        parts = l.split(" ", 2)
-        c[parts[1]] += 1
-        if len(parts) > 2 and parts[1] not in ex:
-            ex[parts[1]] = parts[2][:170]
+        seen = set(c)
+        for l in open(path, errors="replace").read().split("\n"):
+            if not l.strip() or l.startswith("#"):
+                continue
+            parts = l.split(" ", 2)
+            if only_new and parts[1] in seen:
+                continue
+            c[parts[1]] += 1
+            if len(parts) > 2 and parts[1] not in ex:
+                ex[parts[1]] = parts[2][:170]
     return c, ex
 
 
@@ -55,6 +60,14 @@ def main():
             else:
                 what = "strategy %s returns a different result than regexp - %d recorded inputs in %s, e.g. %s" % (rc.split("/", 1)[1], n, led, ex.get(rc, ""))
             add(id="%s-%s" % (prop, rc.replace("/", "-")), property=prop, ledger=led, rcs=[rc], what=what)
+    # C03: PikeVM capture entry points driven directly (pikecaps-cases) vs regexp
+    led = "known/C03pike.ledger"
+    c, ex = rcs(led)
+    if c:
+        add(id="C03-pikevm-captures-vs-regexp", property="C03", ledger=led, rcs=sorted(c),
+            what="nfa.PikeVM capture entry points equal the Coq reference on the compiled NFA (lists M, R empty) but differ from regexp: empty "
+                 "matches inside a multi-byte rune (`(\\B)` on \"x\u00e9 \"), the compiled-NFA findings of C01/C15 - %d recorded inputs in %s "
+                 "(thorough corpus only), e.g. %s" % (sum(c.values()), led, next(iter(ex.values()), "")))
     # C10
     led = "known/C10.ledger"
     c, ex = rcs(led)
